@@ -335,6 +335,7 @@ class _Inliner(ast.NodeTransformer):
         self.fn: List[ast.AST] = []
         self.uid = 0
         self.res_used: Dict[str, int] = {}
+        self.instances: Dict[Tuple[int, str], int] = {}
 
     # -- context
     def visit_ClassDef(self, n):
@@ -382,13 +383,30 @@ class _Inliner(ast.NodeTransformer):
         return ast.copy_location(e, n)
 
     # -- statement level (forms S, A)
-    def _splice(self, t: _Template, call: ast.Call, recv, at: ast.stmt):
+    def _renaming(self, t: _Template, fuse: Optional[Tuple[str, str]] = None) -> Dict[str, str]:
+        """helper locals -> caller-side names: `x__helper` for the first instance inside a function, `x__helper_2`, ... for later ones;
+        `fuse` = (helper local, caller name) lets the helper's result variable become the caller's target directly"""
+        key = (id(self.fn[-1]) if self.fn else 0, t.name)
+        self.instances[key] = self.instances.get(key, 0) + 1
+        k = self.instances[key]
+        suffix = f"__{t.name.strip('_')}" + ("" if k == 1 else f"_{k}")
+        ren = {x: f"{x}{suffix}" for x in _locals_of(t.stmts, set(t.params))}
+        if fuse is not None and fuse[0] in ren:
+            ren[fuse[0]] = fuse[1]
+        return ren
+
+    def _splice(self, t: _Template, call: ast.Call, recv, at: ast.stmt, target: Optional[str] = None):
         m = _bind(t, call, recv)
         if m is None:
             return None
         self.uid += 1
-        loc = _locals_of(t.stmts, set(t.params))
-        ren = {x: f"{x}__{t.name.strip('_')}" for x in loc}
+        fuse = None
+        if target is not None and isinstance(t.result, ast.Name) and t.result.id not in t.params:
+            # `t = helper(..)` where the helper ends in `return local`: the local simply is `t` (unless the arguments mention t)
+            used = {n.id for a in m.values() for n in ast.walk(a) if isinstance(n, ast.Name)}
+            if target not in used and target not in _locals_of(t.stmts, set(t.params)):
+                fuse = (t.result.id, target)
+        ren = self._renaming(t, fuse)
         sub = _Subst(m, ren)
         stmts = [ast.copy_location(sub.visit(copy.deepcopy(s)), at) for s in t.stmts]
         for s in stmts:
@@ -449,8 +467,7 @@ class _Inliner(ast.NodeTransformer):
         m = _bind(t, call, recv)
         if m is None:
             return None
-        loc = _locals_of(t.stmts, set(t.params))
-        ren = {x: f"{x}__{t.name.strip('_')}" for x in loc}
+        ren = self._renaming(t)
         sub = _Subst(m, ren)
         stmts = [sub.visit(copy.deepcopy(s)) for s in t.stmts]
         for s_ in stmts:
@@ -481,8 +498,7 @@ class _Inliner(ast.NodeTransformer):
         m = _bind(t, call, recv)
         if m is None:
             return None
-        loc = _locals_of(t.stmts, set(t.params))
-        ren = {x: f"{x}__{t.name.strip('_')}" for x in loc}
+        ren = self._renaming(t)
         sub = _Subst(m, ren)
         out = [sub.visit(copy.deepcopy(s)) for s in stmts]
         for s_ in out:
@@ -567,7 +583,7 @@ class _Inliner(ast.NodeTransformer):
             return None
         for s_ in stmts:
             for x in ast.walk(s_):
-                if isinstance(x, ast.Name) and x.id in (RES, f"{RES}__{t.name.strip('_')}"):
+                if isinstance(x, ast.Name) and x.id.startswith(RES):
                     x.id = res
 
         class R(ast.NodeTransformer):
@@ -621,13 +637,17 @@ class _Inliner(ast.NodeTransformer):
             if call is not None:
                 t, recv = self._lookup(call)
                 if t is not None and t.form in ("S", "A") and not self._inside_own_body(t):
-                    sp = self._splice(t, call, recv, st)
+                    tgt_name = st.targets[0].id if kind == "assign" and len(st.targets) == 1 and isinstance(st.targets[0], ast.Name) else None
+                    sp = self._splice(t, call, recv, st, tgt_name)
                     if sp is not None:
                         stmts, res = sp
                         if kind == "expr":
                             repl = stmts
                         elif kind == "assign" and res is not None:
-                            repl = stmts + [ast.copy_location(ast.Assign(targets=st.targets, value=res), st)]
+                            if tgt_name is not None and isinstance(res, ast.Name) and res.id == tgt_name:
+                                repl = stmts  # the helper's result variable was fused with the target
+                            else:
+                                repl = stmts + [ast.copy_location(ast.Assign(targets=st.targets, value=res), st)]
                         elif kind == "return" and res is not None:
                             repl = stmts + [ast.copy_location(ast.Return(value=res), st)]
                         if repl is not None:
